@@ -749,6 +749,9 @@ def call_method(E, recv, name, args, kwargs, st, node):
                 return out
         if name == "copy":
             return [(st, recv)]
+        if name in ("items", "values", "keys"):
+            from .values import MapViewV
+            return [(st, MapViewV(recv, name))]
         if name == "update" and args and isinstance(args[0], MapV):
             return [(write_recv(E, node, map_update(recv, args[0]), st), NONE)]
         raise EngineError("dict.%s on a symbolic map" % name)
